@@ -215,7 +215,7 @@ HandleArithCases ==
             ops |-> << Wt(x, "x"), Wt(Rnd(8), "y"), [op |-> "select", bit |-> 0, a |-> "x", b |-> "y", out |-> "s"] >>],
            [g |-> "select/same-handle", expect |-> SelectRel(One, x, x),
             ops |-> << Wt(One, "b"), Wt(x, "x"), [op |-> "select", bit |-> "b", a |-> "x", b |-> "x", out |-> "s"] >>],
-           [g |-> "select/all-one-handle", expect |-> IF x = Zero \/ x = One THEN SelectRel(x, x, x) ELSE Unsat,
+           [g |-> "select/all-one-handle", expect |-> SelectRel(x, x, x),   \* component_select does not constrain its bit
             ops |-> << Wt(x, "x"), [op |-> "select", bit |-> "x", a |-> "x", b |-> "x", out |-> "s"] >>],
            [g |-> "select_one/const-bit-0", expect |-> SelectOneRel(Zero, x),
             ops |-> << Wt(x, "x"), [op |-> "select_one", bit |-> 0, a |-> "x", out |-> "s"] >>],
@@ -390,6 +390,41 @@ FixedCases ==
   Flat(Map(FixedScalars, LAMBDA x : Map(IF Quick THEN << JubJubG >> ELSE << JubJubG, JubJubGNums, GMul(Rnd(54)) >>, LAMBDA p :
         [g |-> "mul_generator", expect |-> GeneratorRes(ExtOf(p), x),
          ops |-> << Wt(x, "s"), [op |-> "mul_generator", s |-> "s", pt |-> PtJ(p), out |-> "R"] >>])))
+
+\* constant-witness handles (0 = ZERO, 1 = ONE) as the operand of the bit-level and
+\* fixed-base components
+HandleRangeCases ==
+  Flat(Map(<<0, 1, 2, 64, 253, 256>>, LAMBDA w :
+    << [g |-> "range_bits/const-1", n |-> w, expect |-> RangeRel(w, One),
+        ops |-> << [op |-> "range_bits", w |-> 1, bits |-> w] >>],
+       [g |-> "range_bits/const-0", n |-> w, expect |-> RangeRel(w, Zero),
+        ops |-> << [op |-> "range_bits", w |-> 0, bits |-> w] >>] >>))
+HandleTruncCases ==
+  Flat(Map(<<0, 1, 2, 64, 254>>, LAMBDA w :
+    << [g |-> "truncate/const-1", n |-> w, expect |-> TruncRel(w, One),
+        ops |-> << [op |-> "truncate", w |-> 1, n |-> w, out |-> "t"] >>],
+       [g |-> "truncate/const-0", n |-> w, expect |-> TruncRel(w, Zero),
+        ops |-> << [op |-> "truncate", w |-> 0, n |-> w, out |-> "t"] >>] >>))
+HandleDecompCases ==
+  Flat(Map(<<1, 2, 64, 256>>, LAMBDA w :
+    << [g |-> "decomposition/const-1", n |-> w, expect |-> DecompRel(w, One),
+        ops |-> << [op |-> "decomposition", w |-> 1, n |-> w, out |-> "bits"] >>],
+       [g |-> "decomposition/const-0", n |-> w, expect |-> DecompRel(w, Zero),
+        ops |-> << [op |-> "decomposition", w |-> 0, n |-> w, out |-> "bits"] >>] >>))
+HandleFixedCases ==
+  << [g |-> "mul_generator/const-1", expect |-> Ok(JubJubG),
+      ops |-> << [op |-> "mul_generator", s |-> 1, pt |-> PtJ(JubJubG), out |-> "R"] >>],
+     [g |-> "mul_generator/const-0", expect |-> Ok(Id),
+      ops |-> << [op |-> "mul_generator", s |-> 0, pt |-> PtJ(JubJubG), out |-> "R"] >>] >>
+HandleSubgroupCases ==
+  << [g |-> "assert_torsion_free/const-identity", expect |-> Ok(<< >>),
+      ops |-> << [op |-> "assert_torsion_free", p |-> IdC, out |-> "T"] >>],
+     [g |-> "assert_equal_point/same-handle", expect |-> Ok(<< >>),
+      ops |-> << PtOp(JubJubG, "P"), [op |-> "assert_equal_point", a |-> "P", b |-> "P"] >>],
+     [g |-> "assert_equal_point/const-identity", expect |-> Unsat,
+      ops |-> << PtOp(JubJubG, "P"), [op |-> "assert_equal_point", a |-> "P", b |-> IdC] >>],
+     [g |-> "assert_equal_point/const-identity-eq", expect |-> Ok(<< >>),
+      ops |-> << PtOp(Id, "P"), [op |-> "assert_equal_point", a |-> IdC, b |-> "P"] >>] >>
 
 \* ---- decomposition alias (C11 "no other bit vector satisfies it") -----------
 \* the bit and accumulator witnesses of component_decomposition::<N>(x) overridden
@@ -629,8 +664,8 @@ ShapeCases ==
 
 VARIABLE k
 AllCases ==
-  CASE Family = "range" -> RangeCasesW("range_bits", RangeW) \o RangeCasesW("range_check", RangeWQ) \o RangePairCases \o RangeEveryWidth
-    [] Family = "decomposition" -> DecompCases
+  CASE Family = "range" -> RangeCasesW("range_bits", RangeW) \o RangeCasesW("range_check", RangeWQ) \o RangePairCases \o RangeEveryWidth \o HandleRangeCases
+    [] Family = "decomposition" -> DecompCases \o HandleDecompCases
     [] Family = "decomposition-alias" -> AliasCases
     [] Family = "shape" -> ShapeCases
     [] Family = "truncate-alias" -> TruncAliasCases \o TruncShiftCases
@@ -642,13 +677,13 @@ AllCases ==
                        Map(<< "none", "rc-high", "canonical" >>, LAMBDA sk : LogicAliasB(p, o, x, Rnd(82), sk))))))))
     [] Family = "fixed-digits" -> DigitCases
     [] Family = "range-closing" -> RangeClosingCases
-    [] Family = "truncate" -> TruncCases
+    [] Family = "truncate" -> TruncCases \o HandleTruncCases
     [] Family = "logic" -> LogicCases \o HandleLogicCases
     [] Family = "arith" -> ArithCases \o HandleArithCases
     [] Family = "curve" -> CurveCases \o HandleCurveCases
     [] Family = "mul_point" -> MulPointCases
-    [] Family = "subgroup" -> SubgroupCases
-    [] Family = "fixed" -> FixedCases
+    [] Family = "subgroup" -> SubgroupCases \o HandleSubgroupCases
+    [] Family = "fixed" -> FixedCases \o HandleFixedCases
 
 CasesV == TLCEval(AllCases)
 Init == k \in 1..Len(CasesV)
